@@ -99,11 +99,18 @@ FIXED_PROGRAMS: List[Program] = [
     (Eq(Var('A'), Bin('+', Var('B', off=1), Var('e', 'e'))), Eq(Var('B'), Bin('-', Var('A', off=-2), Var('X')))),
     # a variable first seen on a right-hand side, later defined
     (Eq(Var('Y'), Bin('+', Var('W'), Var('X', off=-1))), Eq(Var('W'), Bin('*', Var('X'), Var('g', 'p')))),
+    # a lone variable on the right, itself defined by a later equation; the same texts appear on both sides across
+    # equations (a parser that remembers how it classified a text would mis-type one of them: seeded change C01_r3mut1)
+    (Eq(Var('Y'), Var('X')), Eq(Var('X'), Bin('*', Var('Z'), Num('2')))),
+    (Eq(Var('A'), Var('B')), Eq(Var('C'), Var('A')), Eq(Var('B'), Var('C', off=-1))),
     # names that collide with functions / keywords prefixes
     (Eq(Var('exp'), Bin('+', Var('log'), Var('max', off=-1))), Eq(Var('min'), Bin('*', Var('exp'), Var('log', off=-2)))),
     (Eq(Var('is_open'), Bin('+', Var('Pin', off=-1), Var('not_X'))), Eq(Var('not_X'), Neg(Var('is_open', off=-1)))),
     (Eq(Var('Y'), Call('myexp', (Call('exp', (Var('X'),)),))),),
     (Eq(Var('Y'), Call('np.sqrt', (Call('abs', (Bin('-', Var('X'), Var('Z', off=-3)),)),))),),
+    # namespaced functions whose dotted components contain digits are functions too (seeded change C01_r3mut2)
+    (Eq(Var('Y'), Bin('+', Call('np.log10', (Var('X'),)), Call('np.log1p', (Var('Z', off=-1),)))),),
+    (Eq(Var('Y'), Call('np.arctan2', (Var('X'), Call('np.expm1', (Var('Y', off=-1),))))), Eq(Var('W'), Call('np.log2', (Var('Y'),)))),
     # the same equation twice is one equation
     (Eq(Var('Y'), Bin('+', Var('X'), Num('1'))), Eq(Var('Y'), Bin('+', Var('X'), Num('1')))),
     # soft keywords and the bare underscore are ordinary identifiers (seeded change C01_r2mut2)
